@@ -12,6 +12,7 @@ import (
 	"errors"
 	"fmt"
 	"math"
+	"os"
 	"sort"
 	"strconv"
 	"strings"
@@ -692,15 +693,25 @@ func fixedCases() []*tcase {
 
 func main() {
 	defer hx.Flush()
+	shard, _ := strconv.Atoi(os.Getenv("VERIF_SHARD"))
+	nshards, _ := strconv.Atoi(os.Getenv("VERIF_NSHARDS"))
+	if nshards <= 0 {
+		nshards = 1
+	}
 	r := hx.NewRand(17)
 	id := 0
 	for _, tc := range fixedCases() {
-		runCase(id, tc)
+		if id%nshards == shard {
+			runCase(id, tc)
+		}
 		id++
 	}
-	n := hx.N(400, 6000)
+	n := hx.N(400, 8000)
 	for i := 0; i < n; i++ {
-		runCase(id, genCase(r))
+		tc := genCase(r) // every shard walks the same PRNG stream
+		if id%nshards == shard {
+			runCase(id, tc)
+		}
 		id++
 	}
 }
